@@ -10,7 +10,7 @@ def make(rd, tier, seed, ev):
     ev.add_model(r, 'PlanGen: enumeration of all small timeline problems with their feasibility verdicts')
     rr = [s for s in shapes if s['fam'] == 'rr']
     pick = gen_problems.sample_shapes(rr, 250 if tier == 'quick' else 2500, seed)
-    gen = plancheck.write_problems(rd, [(gen_problems.shape_name(s), gen_problems.render_timeline(s)) for s in pick])
+    gen = plancheck.write_problems(rd, [(gen_problems.shape_name(s), gen_problems.render_timeline(s)) for s in pick]) + plancheck.feature_problems(rd, ['timeline_rr'], seed, tier)[0]
     repo = [p for p in plancheck.repo_problems() if p[0].startswith(('RRTest', 'Matera', 'Education', 'incremental'))]
     if tier == 'quick':
         repo = repo[::3]
@@ -22,7 +22,7 @@ def run(tier, seed):
     return plancheck.run_plan(PROP, tier, seed,
         rule='reusable-resource problems: every shape enumerated by PlanGen.tla (1-2 resources of capacity 1-2, 2 atoms with '
              'amounts 1-2, facts/goals, fixed or planner-chosen resource, fixed or free start, durations 0-2, horizons 2-3) '
-             'sampled by seed, plus the repository examples that use reusable resources; every reported solution is validated '
+             'sampled by seed, plus the feature-cross timeline family (capacity given as a constant, as an expression of a variable bounded before or after the uses, or of the position of atoms on another timeline; 10 temporal relations; incremental reading), plus the repository examples that use reusable resources; every reported solution is validated '
              'by PlanTrace: at every start instant the exact sum of the amounts of the covering atoms assigned to the resource '
              'is within its capacity, every timeline segment lists exactly the covering atoms and its usage equals their sum; '
              'distinct_nontrivial = (configuration, problem) pairs whose solution has >= 2 active Use atoms',
